@@ -1369,7 +1369,7 @@ enum Layer {
 #[derive(Clone, Debug, Hash, PartialEq, Eq)]
 struct Target {
     layer: Layer,
-    /// 0 free size, 1 partial chunk size, 2 AEAD chunk size, 3 internal 8 KiB buffer
+    /// 0 free size, 1 partial chunk size, 2 AEAD chunk size, 3 internal 8 KiB buffer, 4 length-encoding threshold
     kind: u8,
     block: u32,
     k: u32,
@@ -1394,7 +1394,7 @@ impl Target {
             format!(
                 "{:?}:{}{}={}*{}{:+}",
                 self.layer,
-                ["", "partial", "aead", "buf"][self.kind as usize],
+                ["", "partial", "aead", "buf", "lenform"][self.kind as usize],
                 self.block,
                 self.k,
                 self.block,
@@ -1434,6 +1434,15 @@ fn targets(quick: bool) -> Vec<Target> {
     }
     for l in [Layer::P, Layer::I, Layer::E] {
         sweep(l, 3, 8192, &mut v);
+    }
+    // the thresholds of the new-format length encoding (one / two / five octets: 192 and 8384): a packet body or a
+    // final partial chunk of exactly that size, on every layer (the sweep of d walks over the header sizes)
+    for l in [Layer::P, Layer::I, Layer::E] {
+        for block in [192u32, 8384] {
+            for d in DMIN..=DMAX + 6 {
+                v.push(Target { layer: l, kind: 4, block, k: 1, d });
+            }
+        }
     }
     if !quick {
         // very large AEAD chunks: only the immediate neighbourhood of one and two chunks
@@ -1483,6 +1492,15 @@ fn apply_target(sp: &Space, c: &Cfg, t: &Target, rng: &mut ChaCha8Rng) -> Cfg {
                 c[D_ENC] = rng.gen_range(12..21);
             }
             c[D_AEADCS] = (t.block.trailing_zeros() - 6 + 1) as u8;
+        }
+        (Layer::P, 4) => {
+            // a sized source gives a fixed-length literal packet (a reader source a final partial chunk)
+            if rng.gen_bool(0.6) {
+                c[D_SRC] = rng.gen_range(0..2);
+            }
+            if rng.gen_bool(0.5) {
+                c[D_COMP] = 0;
+            }
         }
         (Layer::I, 3) => {
             if !matches!(enc_of(c[D_ENC]), Enc::V1(..)) {
